@@ -2140,10 +2140,40 @@ class DiskObjectStore(PackBasedObjectStore):
         # Store paths before closing to avoid re-opening files on Windows
         data_path = pack._data_path
         idx_path = pack._idx_path
+        self._drop_midx_for_pack(os.path.basename(idx_path))
         pack.close()
         _remove_readonly(data_path)
         if os.path.exists(idx_path):
             _remove_readonly(idx_path)
+
+    def _drop_midx_for_pack(self, idx_name: str) -> None:
+        """Remove the multi-pack-index if it lists a pack that is going away.
+
+        A multi-pack-index that names a missing pack makes git report errors
+        ("failed to load pack entry"); git removes the file as well before it
+        deletes a pack the file refers to.
+
+        Args:
+          idx_name: Basename of the index file of the pack being removed
+        """
+        midx_file = os.path.join(self.pack_dir, "multi-pack-index")
+        if not os.path.exists(midx_file):
+            return
+        try:
+            midx = load_midx(midx_file)
+        except (ValueError, OSError):
+            return
+        try:
+            listed = idx_name in midx.pack_names
+        finally:
+            midx.close()
+        if not listed:
+            return
+        if self._midx is not None:
+            self._midx.close()
+            self._midx = None
+        with suppress(FileNotFoundError):
+            os.remove(midx_file)
 
     def _get_pack_basepath(
         self, entries: Iterable[tuple[bytes, int, int | None]]
